@@ -382,8 +382,18 @@ func runC17(p *eng.Prog, r *eng.Report, tier string) {
 			k2, _ := sc.FieldClass(as.Rhs[0])
 			return k == "styling.Decoder.mask" && k2 == "styling.Decoder.clearMask"
 		}
+		reset := func(q eng.Point, nd ast.Node) bool {
+			as, ok := nd.(*ast.AssignStmt)
+			if !ok || as.Tok != token.ASSIGN || len(as.Lhs) != 1 || len(as.Rhs) != 1 {
+				return false
+			}
+			k, _ := sc.FieldClass(as.Lhs[0])
+			v, isC := sc.ConstInt(as.Rhs[0])
+			return k == "styling.Decoder.clearMask" && isC && v == 0
+		}
 		for _, cl := range append(sc.Calls("styling.Decoder.scanSpan"), sc.Calls("styling.Decoder.scanPre")...) {
 			pt, _ := g.Where(cl)
+			c.r.Check("C17.3", sc, "clear mask emptied before "+sc.CalleeID(cl), "O: the bits scheduled by the previous token are applied once: the clear mask is reset before the next token is scanned (a mask that is kept strips the style of every later token of the enclosing span)", cl.Pos(), g.MustPassBefore(g.Entry(), pt, reset, nil), "scan reaches the sub-scanner without clearMask = 0")
 			c.r.Check("C17.3", sc, "clear mask applied before "+sc.CalleeID(cl), "O: directive bits of the previous token are cleared before the next token is scanned", cl.Pos(), g.MustPassBefore(g.Entry(), pt, applied, nil), "scan reaches the sub-scanner without mask &^= clearMask")
 		}
 	}
